@@ -348,4 +348,205 @@ theorem limitDims_good (shape : List Nat) (pow2 : Bool) (maxDim : List (Nat × N
         have := g.le_shape i
         omega
 
+/-- one iteration of the greedy split loop that did not `break` keeps the invariant -/
+theorem split_step_good {shape dimsAll maxDim pow2 de} (g : Good shape dimsAll maxDim pow2 de)
+    (itemsize maxBytes dim : Nat) (hlt : ¬ de.prod * itemsize ≤ maxBytes) :
+    Good shape dimsAll maxDim pow2
+      (de.set dim (targetElements pow2 (shape.getD dim 0) (de.getD dim 0 * maxBytes)
+        (itemsize * de.prod))) := by
+  by_cases hlen : dim < de.length
+  · have hcur : 0 < de.prod := by
+      rcases Nat.eq_zero_or_pos de.prod with h0 | h0
+      · rw [h0] at hlt; simp at hlt
+      · exact h0
+    have hitem : 0 < itemsize := by
+      rcases Nat.eq_zero_or_pos itemsize with h0 | h0
+      · rw [h0] at hlt; simp at hlt
+      · exact h0
+    have hd := getD_pos_of_prod_pos de dim hcur hlen
+    have hden : 0 < itemsize * de.prod := Nat.mul_pos hitem hcur
+    have hmb : maxBytes < itemsize * de.prod := by rw [Nat.mul_comm]; omega
+    have hnum : de.getD dim 0 * maxBytes < de.getD dim 0 * (itemsize * de.prod) :=
+      Nat.mul_lt_mul_of_pos_left hmb hd
+    have f := targetElements_facts pow2 (shape.getD dim 0) (de.getD dim 0 * maxBytes)
+      (itemsize * de.prod) (de.getD dim 0) hden hnum hd (g.le_shape dim)
+    refine g.set dim _ (Nat.le_trans f.2.1 (g.le_shape dim)) f.1 ?_ f.2.2.2.2
+    intro m hmem hl
+    exact Nat.le_trans f.2.1 (g.limit dim m hmem hl)
+  · rw [List.set_eq_of_length_le (by omega)]; exact g
+
+theorem splitLoop_good {shape dimsAll maxDim pow2} (itemsize maxBytes : Nat) :
+    ∀ (dims de : List Nat), Good shape dimsAll maxDim pow2 de →
+      Good shape dimsAll maxDim pow2 (splitLoop shape itemsize maxBytes pow2 dims de) := by
+  intro dims
+  induction dims with
+  | nil => intro de g; simpa [splitLoop] using g
+  | cons dim rest ih =>
+    intro de g
+    unfold splitLoop
+    simp only
+    split
+    · exact g
+    · rename_i hlt
+      exact ih _ (split_step_good g itemsize maxBytes dim hlt)
+
+/-- dimensions that are not in `dims_to_split` are never touched -/
+theorem limitDims_frame (shape : List Nat) (pow2 : Bool) (maxDim : List (Nat × Nat)) :
+    ∀ (dims de : List Nat) (i dflt : Nat), i ∉ dims →
+      (limitDims shape pow2 maxDim dims de).getD i dflt = de.getD i dflt := by
+  intro dims
+  induction dims with
+  | nil => intro de i d _; simp [limitDims]
+  | cons j rest ih =>
+    intro de i d hi
+    have hij : j ≠ i := fun h => hi (by rw [h]; exact List.mem_cons_self ..)
+    have hrest : i ∉ rest := fun h => hi (List.mem_cons_of_mem _ h)
+    unfold limitDims
+    split
+    · split
+      · rw [ih _ i d hrest, getD_set_ne _ _ _ _ _ hij]
+      · exact ih _ i d hrest
+    · exact ih _ i d hrest
+
+theorem splitLoop_frame (shape : List Nat) (itemsize maxBytes : Nat) (pow2 : Bool) :
+    ∀ (dims de : List Nat) (i dflt : Nat), i ∉ dims →
+      (splitLoop shape itemsize maxBytes pow2 dims de).getD i dflt = de.getD i dflt := by
+  intro dims
+  induction dims with
+  | nil => intro de i d _; simp [splitLoop]
+  | cons j rest ih =>
+    intro de i d hi
+    have hij : j ≠ i := fun h => hi (by rw [h]; exact List.mem_cons_self ..)
+    have hrest : i ∉ rest := fun h => hi (List.mem_cons_of_mem _ h)
+    unfold splitLoop
+    simp only
+    split
+    · rfl
+    · rw [ih _ i d hrest, getD_set_ne _ _ _ _ _ hij]
+
+theorem splitLoop_of_budget (shape : List Nat) (itemsize maxBytes : Nat) (pow2 : Bool)
+    (dims de : List Nat) (h : de.prod * itemsize ≤ maxBytes) :
+    splitLoop shape itemsize maxBytes pow2 dims de = de := by
+  cases dims with
+  | nil => simp [splitLoop]
+  | cons d r => simp [splitLoop, h]
+
+/-- **the budget**: when the loop ends either a chunk fits in `max_chunk_size` bytes, or every
+    dimension that may be split is already down to one element per chunk -/
+theorem splitLoop_budget {shape dimsAll maxDim pow2} (itemsize maxBytes : Nat) :
+    ∀ (dims de : List Nat), Good shape dimsAll maxDim pow2 de → dims.Nodup →
+      (splitLoop shape itemsize maxBytes pow2 dims de).prod * itemsize ≤ maxBytes ∨
+      ∀ dim ∈ dims, (splitLoop shape itemsize maxBytes pow2 dims de).getD dim 1 = 1 := by
+  intro dims
+  induction dims with
+  | nil => intro de _ _; right; intro d hd; simp at hd
+  | cons dim rest ih =>
+    intro de g hnd
+    have hnotin : dim ∉ rest := (List.nodup_cons.mp hnd).1
+    have hrest : rest.Nodup := (List.nodup_cons.mp hnd).2
+    by_cases hb : de.prod * itemsize ≤ maxBytes
+    · left; rw [splitLoop_of_budget _ _ _ _ _ _ hb]; exact hb
+    · have hstep : splitLoop shape itemsize maxBytes pow2 (dim :: rest) de
+          = splitLoop shape itemsize maxBytes pow2 rest
+              (de.set dim (targetElements pow2 (shape.getD dim 0) (de.getD dim 0 * maxBytes)
+                (itemsize * de.prod))) := by
+        conv => lhs; unfold splitLoop
+        simp [hb]
+      rw [hstep]
+      have g' := split_step_good g itemsize maxBytes dim hb
+      have hcur : 0 < de.prod := by
+        rcases Nat.eq_zero_or_pos de.prod with h0 | h0
+        · rw [h0] at hb; simp at hb
+        · exact h0
+      have hitem : 0 < itemsize := by
+        rcases Nat.eq_zero_or_pos itemsize with h0 | h0
+        · rw [h0] at hb; simp at hb
+        · exact h0
+      have hden : 0 < itemsize * de.prod := Nat.mul_pos hitem hcur
+      have hmb : maxBytes < itemsize * de.prod := by rw [Nat.mul_comm]; omega
+      by_cases hlen : dim < de.length
+      · have hd := getD_pos_of_prod_pos de dim hcur hlen
+        have hnum : de.getD dim 0 * maxBytes < de.getD dim 0 * (itemsize * de.prod) :=
+          Nat.mul_lt_mul_of_pos_left hmb hd
+        have f := targetElements_facts pow2 (shape.getD dim 0) (de.getD dim 0 * maxBytes)
+          (itemsize * de.prod) (de.getD dim 0) hden hnum hd (g.le_shape dim)
+        generalize htrg : targetElements pow2 (shape.getD dim 0) (de.getD dim 0 * maxBytes)
+          (itemsize * de.prod) = trg at *
+        by_cases hcase : itemsize * de.prod ≤ de.getD dim 0 * maxBytes
+        · -- the budget is met after this dimension
+          left
+          have hps := prod_set de dim trg hlen
+          have hbud := f.2.2.1 hcase
+          have hnew : (de.set dim trg).prod * itemsize ≤ maxBytes := by
+            apply Nat.le_of_mul_le_mul_left (c := de.getD dim 0) _ hd
+            calc de.getD dim 0 * ((de.set dim trg).prod * itemsize)
+                = ((de.set dim trg).prod * de.getD dim 0) * itemsize := by
+                  rw [← Nat.mul_assoc, Nat.mul_comm (de.getD dim 0)]
+              _ = (de.prod * trg) * itemsize := by rw [hps]
+              _ = trg * (itemsize * de.prod) := by
+                  rw [Nat.mul_comm de.prod trg, Nat.mul_assoc, Nat.mul_comm de.prod itemsize]
+              _ ≤ de.getD dim 0 * maxBytes := hbud
+          rw [splitLoop_of_budget _ _ _ _ _ _ hnew]; exact hnew
+        · have h1 : trg = 1 := f.2.2.2.1 (by omega)
+          rcases ih _ g' hrest with h | h
+          · left; exact h
+          · right
+            intro x hx
+            rw [List.mem_cons] at hx
+            rcases hx with hx | hx
+            · subst hx
+              rw [splitLoop_frame _ _ _ _ _ _ _ _ hnotin, getD_set_eq _ _ _ _ hlen]; exact h1
+            · exact h x hx
+      · rcases ih _ g' hrest with h | h
+        · left; exact h
+        · right
+          intro x hx
+          rw [List.mem_cons] at hx
+          rcases hx with hx | hx
+          · subst hx
+            rw [splitLoop_frame _ _ _ _ _ _ _ _ hnotin, List.set_eq_of_length_le (by omega),
+              getD_of_length_le _ _ _ (by omega)]
+          · exact h x hx
+
+theorem zipBlockdims_getD : ∀ (shape de : List Nat) (i : Nat), de.length = shape.length →
+    i < shape.length →
+    (zipBlockdims shape de).getD i [] = blockdims (shape.getD i 0) (de.getD i 0) := by
+  intro shape
+  induction shape with
+  | nil => intro de i _ hi; simp at hi
+  | cons d ds ih =>
+    intro de i hlen hi
+    cases de with
+    | nil => simp at hlen
+    | cons b bs =>
+      cases i with
+      | zero => simp [zipBlockdims]
+      | succ k =>
+        simp only [List.length_cons] at hlen hi
+        simp only [zipBlockdims, List.getD_cons_succ]
+        exact ih bs k (by omega) (by omega)
+
+theorem zipBlockdims_length : ∀ (shape de : List Nat), de.length = shape.length →
+    (zipBlockdims shape de).length = shape.length := by
+  intro shape
+  induction shape with
+  | nil => intro de _; cases de <;> simp [zipBlockdims]
+  | cons d ds ih =>
+    intro de hlen
+    cases de with
+    | nil => simp at hlen
+    | cons b bs =>
+      simp only [List.length_cons] at hlen
+      simp [zipBlockdims, ih bs (by omega)]
+
+/-- the invariant holds for the block shape `generate_chunks` ends up with -/
+theorem dimElements_good (shape : List Nat) (itemsize maxBytes : Nat) (dims : List Nat)
+    (pow2 : Bool) (maxDim : List (Nat × Nat))
+    (hpos : ∀ i m, lookupDim maxDim i = some m → 1 ≤ m) :
+    Good shape dims maxDim pow2 (dimElements shape itemsize maxBytes dims pow2 maxDim) := by
+  unfold dimElements
+  apply splitLoop_good
+  have := limitDims_good shape pow2 maxDim hpos dims [] shape (good_shape shape maxDim pow2)
+  simpa using this
+
 end ChunkStore
